@@ -92,3 +92,9 @@ M("c13-list-select-extra", "C13", "io/reader.py", "            for key in select
 M("c13-group-off-ignored", "C13", "io/sink.py", "        if select is False:\n            return\n        sink = Datagroup()", "        if select is False and meta['ndim'] < 3:\n            return\n        sink = Datagroup()", "sinks loaded in 3-D although switched off")
 M("c13-grav-exists", "C13", "io/grav.py", "        if not os.path.exists(fname):\n            return", "        if not os.path.exists(fname):\n            if meta['ncpu'] > 1:\n                return", "missing gravity files only tolerated for multi-rank outputs")
 M("c13-amr-level-skip", "C13", "io/amr.py", '        if self.variables["level"]["read"]:', '        if self.variables["level"]["read"] or self.variables["dx"]["read"] is False:', "level buffer written although not requested (crash or junk)")
+
+# ---------------------------------------------------------------- C12
+M("c12-lmax-min", "C12", "io/utils.py", "return possible_levels[inds.max()]", "return possible_levels[inds.min()]", "cap at the lowest accepted level")
+M("c12-leaf-levelmax", "C12", "io/amr.py", 'ilevel < info["lmax"] - 1', 'ilevel < info["levelmax"] - 1', "leaf rule ignores the cap")
+M("c12-cap-only-le", "C12", "io/loader.py", 'if isinstance(_select["mesh"], dict) and "level" in _select["mesh"]:', 'if isinstance(_select["mesh"], dict) and "level" in _select["mesh"] and len(_select["mesh"]) == 1:', "cap only applied when level is the sole predicate")
+M("c12-lmax-plus-one", "C12", "io/utils.py", "    possible_levels = np.arange(1, levelmax + 1, dtype=int)", "    possible_levels = np.arange(1, levelmax, dtype=int) if levelmax > 3 else np.arange(1, levelmax + 1, dtype=int)", "level levelmax never considered for deep trees")
